@@ -104,6 +104,31 @@ theorem slots_after_history (K : Kernels) (m : Nat) (hist : List Op) (mg : Manag
     (runOps K hist {}).mgrs.length = (lastSlots K m hist (0, {})).1 :=
   ⟨(inv_runOps K m hist {} 0 {} (inv_empty m)).slots mg hm, (inv_runOps K m hist {} 0 {} (inv_empty m)).len⟩
 
+/-- **refused_call_is_identity.**  A setter or `set_design` call that is refused (unknown pipe
+    type / geometry type / fluid / flow type, geometry constraints missing, candidate generation
+    raising, no such manager — whether it reports by `return 1` or by raising) leaves the whole
+    world exactly as it was: every slot of every manager, `pipe_type`, `geom_type`, the design, the
+    last search, the heap of boreholes. -/
+theorem refused_call_is_identity (K : Kernels) (op : Op) (w : World) (e : PyErr)
+    (hop : ∀ m, op ≠ .findDesign m) (h : (step K op w).1 = .error e) : (step K op w).2 = w :=
+  refused_call_is_identity_aux K op w e hop h
+
+/-- `find_design` refused by its own `all([...])` test leaves the world as it was (a `find_design`
+    that fails *during* the search keeps every slot but may leave another borehole height:
+    `frame_findDesign`). -/
+theorem refused_find_design_is_identity (K : Kernels) (m : Nat) (w : World) (mg : Manager)
+    (hm : w.mgrs[m]? = some mg) (hr : mg.ready = false) : step K (.findDesign m) w = (.error .valueError, w) :=
+  findDesign_not_ready K m w mg hm hr
+
+/-- Hence a refused call can be deleted from any history without changing anything that follows
+    (in particular the design found later). -/
+theorem refused_call_can_be_deleted (K : Kernels) (h1 h2 : List Op) (op : Op) (e : PyErr)
+    (hop : ∀ m, op ≠ .findDesign m) (h : (step K op (runOps K h1 {})).1 = .error e) :
+    runOps K (h1 ++ op :: h2) {} = runOps K (h1 ++ h2) {} := by
+  rw [runOps_append, runOps_append]
+  simp only [runOps]
+  rw [refused_call_is_identity K op _ e hop h]
+
 /-! ### 2. One GHE object: every call behaves as on a new object -/
 
 /-- **simulate_pure.**  For every sequence of `simulate`/`size`/`compute_g_functions` calls and
@@ -176,6 +201,22 @@ theorem source_shape_components_readonly :
     `keep_contour` default) is therefore all the state a history can leave behind in a process; a
     module-level memo (seeded change C07-w2m1) breaks this theorem. -/
 theorem source_shape_no_module_state : Gen.Api.moduleState = [] := by
+  decide
+
+/-- The setters that can refuse their input store only enum constants or freshly constructed
+    objects, each in the accepting branch (`set_fluid`: inside the `try`, after the constructor
+    returned): nothing is stored before the input has been accepted (`step`: the refusing branches
+    return the world unchanged).  A lookup stored before the test (seeded change C13-w3m3) breaks this. -/
+theorem source_shape_refusing_setters :
+    Gen.Api.refusingSetterStores =
+      [("set_design_geometry_type", ["self.geom_type=DesignGeomType.BIRECTANGLE", "self.geom_type=DesignGeomType.BIRECTANGLECONSTRAINED",
+          "self.geom_type=DesignGeomType.BIZONEDRECTANGLE", "self.geom_type=DesignGeomType.NEARSQUARE",
+          "self.geom_type=DesignGeomType.RECTANGLE", "self.geom_type=DesignGeomType.ROWWISE"]),
+       ("set_pipe_type", ["self.pipe_type=BHPipeType.SINGLEUTUBE", "self.pipe_type=BHPipeType.DOUBLEUTUBEPARALLEL",
+          "self.pipe_type=BHPipeType.DOUBLEUTUBESERIES", "self.pipe_type=BHPipeType.COAXIAL"]),
+       ("set_fluid", ["self._fluid=GHEFluid(...) [try]"]),
+       ("set_design", ["self._design=DesignNearSquare(...)", "self._design=DesignRectangle(...)", "self._design=DesignBiRectangle(...)",
+          "self._design=DesignBiZoned(...)", "self._design=DesignBiRectangleConstrained(...)", "self._design=DesignRowWise(...)"])] := by
   decide
 
 def snapshotArgs : List String :=
@@ -335,6 +376,20 @@ example :
     resultOf (runOps K0 (hist0 ++ [.setDesign 0 (1 / 2) .borehole, .findDesign 0, .setLoads 0 { tok := "big", len := 8760 },
         .setGeom 0 { kind := .nearSquare, tok := "large lot" }, .setDesign 0 (1 / 2) .borehole, .findDesign 0]) {}) 0 =
       (design K0 { cfg0 with st := { st0 with loads := { tok := "big", len := 8760 } }, geom := { kind := .nearSquare, tok := "large lot" } }).toOption := by
+  decide +kernel
+
+/-- Refused calls interleaved in a history (a misspelt pipe type after the pipe setter, an unknown
+    geometry type, a flow type that is not implemented, `find_design` on a manager that is not
+    ready) are all refused and the design found afterwards is the one found without them. -/
+example :
+    (step K0 (.setPipeType 0 none) (runOps K0 hist0 {})).1 = .error .valueError ∧
+    (step K0 (.setDesign 0 (1 / 2) .other) (runOps K0 hist0 {})).1 = .error .valueError ∧
+    (step K0 (.findDesign 0) (runOps K0 hist0 {})).1 = .error .valueError ∧
+    resultOf (runOps K0 (hist0 ++ [.setPipeType 0 none, .setGeomType 0 none, .setDesign 0 (1 / 2) .other, .findDesign 0,
+        .setDesign 0 (1 / 2) .borehole, .setPipeType 0 none, .findDesign 0]) {}) 0 =
+      resultOf (runOps K0 (hist0 ++ [.setDesign 0 (1 / 2) .borehole, .findDesign 0]) {}) 0 ∧
+    ((runOps K0 (hist0 ++ [.setPipeType 0 none, .setGeomType 0 none]) {}).mgrs[0]?).map (fun mg => (mg.pipeType, mg.geomType)) =
+      some (some "SINGLEUTUBE", none) := by
   decide +kernel
 
 /-- The search routine of `K0` is `Safe` from every non-zero height (and the hypothesis is needed:
